@@ -161,7 +161,10 @@ Definition storm_sched (n : nat) : list sev := flat_map (fun t => repeat (Step t
    Communication and the processes, for each way the session can end.                           *)
 Inductive role := Coord | Peer.          (* this relayer is / is not the static coordinator *)
 Inductive outcome := Success | ProcessError | CoordinatorSilent | GlobalTimeout | Cancelled.
-Inductive phase := BeforeStart | DuringRun.   (* for GlobalTimeout / Cancelled: when it strikes *)
+Inductive phase := BeforeStart | DuringRun     (* for GlobalTimeout / Cancelled: when it strikes *)
+| BeforeEntry.  (* Cancelled: the context handed to Execute is ALREADY cancelled (or past its deadline)
+                   when Execute is called: the request goes through admission, the cleanup defer is
+                   registered, the wait loops subscribe and return at once, Run is never called *)
 
 Inductive msg := MInitiate | MStart | MFail | MReady.
 Inductive ret := RNil | RPending | RCoordinatorErr | RTimeout | RProcessErr.
@@ -177,7 +180,7 @@ Definition runs (r : role) (o : outcome) (ph : phase) : bool :=
   match o with
   | Success | ProcessError => true
   | CoordinatorSilent => false
-  | GlobalTimeout | Cancelled => match ph with BeforeStart => false | DuringRun => true end
+  | GlobalTimeout | Cancelled => match ph with BeforeStart | BeforeEntry => false | DuringRun => true end
   end.
 
 Definition seq_ev (f : nat -> ev) (n : nat) : list ev := map f (seq 0 n).
@@ -238,11 +241,18 @@ Fixpoint last_pend (l : list ev) : option bool :=
               end
   end.
 
-(* every subscription released, CloseSession once, every process stopped exactly once and run at
-   most once, pending flag false in the end *)
+(* the session never communicated: it subscribed to nothing and ran no process (a request that is
+   turned away at the door - e.g. because its context is already cancelled - has opened no stream) *)
+Definition silent_session (np : nat) (l : list ev) : bool :=
+  forallb (fun m => Nat.eqb (count_ev (is_sub m) l) 0) all_msgs
+  && forallb (fun p => Nat.eqb (count_ev (is_run p) l) 0) (seq 0 np).
+
+(* every subscription released, CloseSession once (it may be left out by a session that never
+   communicated: there is no stream to release), every process stopped exactly once and run at most
+   once, pending flag false in the end *)
 Definition cleanup_ok (np : nat) (l : list ev) : bool :=
   forallb (fun m => Nat.eqb (count_ev (is_sub m) l) (count_ev (is_unsub m) l)) all_msgs
-  && Nat.eqb (count_ev is_close l) 1
+  && (Nat.eqb (count_ev is_close l) 1 || (Nat.eqb (count_ev is_close l) 0 && silent_session np l))
   && forallb (fun p => Nat.eqb (count_ev (is_stop p) l) 1 && Nat.leb (count_ev (is_run p) l) 1) (seq 0 np)
   && match last_pend l with Some false => true | _ => false end.
 
